@@ -40,8 +40,14 @@ MAGIC2 = b"\r\n\r\n\x00\r\nQUIT\n"
 V4PFX = bytes(10) + b"\xff\xff"
 
 
+_EXE = {}
+
+
 def impl(sanitize="ubsan"):
-    return hbuild.build("h_proxyp", "h_proxyp.cc", fresh=FRESH, link=LINK, sanitize=sanitize)
+    """built once per process (the IP oracle and the correspondence run use the same binary)"""
+    if sanitize not in _EXE:
+        _EXE[sanitize] = hbuild.build("h_proxyp", "h_proxyp.cc", fresh=FRESH, link=LINK, sanitize=sanitize)
+    return _EXE[sanitize]
 
 
 def prebuild():
